@@ -137,8 +137,23 @@ def one_run(ctx, prog, g, exe, backend, cfg):
         msg = 'exit %s after %d transcript lines: %s' % (rc, len(ops), err[-500:])
         if expect_neg:       # e.g. corpus 003 under index-array: the runaway startup loop creates T(-1), T(-2).. outside the dependency array
             r['known'] = ['negative-step program crashed: ' + msg]
+            return r
+        # a crash of a valid program: re-run the same configuration to see whether it reproduces (a violation with its
+        # reproduction rate) or was a one-off on a loaded machine (reported in the evidence, full stderr kept)
+        again = 0
+        tries = 6
+        for _ in range(tries):
+            rc2, out2, err2 = pvptg.run_exe(exe, g, threads=threads, sched=sched, timeout_ms=20000,
+                                            extra_env={'PARSEC_MCA_task_startup_iter': str(it), 'PARSEC_MCA_task_startup_chunk': str(ch)})
+            again += rc2 not in (0, 3)
+            if again:
+                break
+        log = os.path.join(os.path.dirname(exe), 'crash-%s-%s.stderr' % (sched, threads))
+        open(log, 'w').write(err)
+        if again:
+            r['crash'] = msg + ' [reproduced %d/%d]' % (again, tries)
         else:
-            r['crash'] = msg
+            r['oneoff'] = 'rc=%s %s threads=%s chunk=%s/%s, not reproduced in %d re-runs; stderr in %s: %s' % (rc, sched, threads, it, ch, tries, log, err[-300:])
         return r
     if len(ops) > 3000:      # a runaway program (corpus 003): keep the prefix
         ops, impl = ops[:3000] + [ops[-1]], impl[:3000] + [impl[-1]]
@@ -147,7 +162,10 @@ def one_run(ctx, prog, g, exe, backend, cfg):
     for orc in ORACLES:
         r['fails'] += orc(prog, g, cfg, ops, impl)
     if expect_neg and r['fails']:
-        r['known'], r['fails'] = r['fails'], []
+        # the known finding explains: instances that never ran, no completion, runaway instances outside the space;
+        # anything else (e.g. a wrong announced count) stays a failure of its own
+        kn = [f for f in r['fails'] if ' ran 0 time(s)' in f or f.startswith('taskpool did not complete') or 'outside the declared space' in f]
+        r['known'], r['fails'] = kn, [f for f in r['fails'] if f not in kn]
         # what the model says about a negative-step program is still compared, except the final verdict line
         r['dis'] = [d for d in r['dis'] if d.get('op') != 'end' and not str(d.get('model', '')).startswith('bad:not-in-space')]
     return r
@@ -157,7 +175,7 @@ def run(ctx, res, cases=None):
     rng = pv.Rng(ctx.seed)
     corpus = load_corpus()
     if cases is None:
-        n = 10 if ctx.quick else 150
+        n = 10 if ctx.quick else 60
         k = (n * 2) // 5
         progs = corpus + ptg_gen.gen_programs(rng, n - k, 'full', 'p') + ptg_gen.gen_programs(rng.fork(4242), k, 'full', 'q', derived_params=False)
     else:
@@ -193,11 +211,19 @@ def run(ctx, res, cases=None):
                 for cfg in sel:
                     work.append((p, g, exe, b, cfg))
     results = []
+    bad = 0
     with concurrent.futures.ThreadPoolExecutor(max_workers=5) as ex:
         futs = [ex.submit(one_run, ctx, p, g, exe, b, cfg) for (p, g, exe, b, cfg) in work]
         for w, f in zip(work, futs):
+            if bad >= 6:            # enough failing runs to report: do not start the remaining ones
+                f.cancel()
+                continue
             try:
-                results.append((w, f.result()))
+                r = f.result()
+                results.append((w, r))
+                bad += bool(r['crash'] or r['fails'] or r['dis'])
+            except concurrent.futures.CancelledError:
+                pass
             except Exception as e:
                 res.infra_errors.append('run %s %s %s raised %r' % (w[0].name, w[1], w[4], e))
     hist = {'sched': {}, 'threads': {}, 'chunk': {}, 'backend': {}}
@@ -207,6 +233,10 @@ def run(ctx, res, cases=None):
         case = json.loads(p.to_case({'gvecs': [list(g)], 'config': list(cfg), 'backend': b}))
         for k, v in (('sched', cfg[0]), ('threads', cfg[1]), ('chunk', '%d/%d' % (cfg[2], cfg[3])), ('backend', b)):
             hist[k][str(v)] = hist[k].get(str(v), 0) + 1
+        if r.get('oneoff'):
+            res.extra.setdefault('unreproduced_crashes', []).append({'program': p.ser(g)[:200], 'what': r['oneoff']})
+            res.notes.append('one unreproduced crash of a generated program (see coverage.unreproduced_crashes)')
+            continue
         if r['crash']:
             res.violations.append({'key': 'crash:%s' % p.ser(g)[:300], 'what': 'generated program crashed: ' + r['crash'], 'case': case})
             continue
